@@ -1,0 +1,171 @@
+//go:build verif
+
+// Ghost vocabulary for machine-checked contracts (see /verif/DESIGN.md).
+// This file exists only under the `verif` build tag; with the tag off the
+// package is byte-for-byte the upstream package. The functions below are
+// interpreted by the verifier (govc); their Go bodies are the executable
+// reading used when a counterexample is replayed against the real code.
+
+package protodesc
+
+import "reflect"
+
+func requires(c bool) {
+	if !c {
+		panic("verif: requires violated")
+	}
+}
+
+// domain restricts the verified domain of a function: assumed when the function is verified, not
+// checked at its call sites (always listed as an assumption in the evidence).
+func domain(c bool) {
+	if !c {
+		panic("verif: requires violated")
+	}
+}
+
+func ensures(c bool) {
+	if !c {
+		panic("verif: ensures violated")
+	}
+}
+
+// ensuresGoal is a postcondition that is checked on the function itself but never
+// assumed at its call sites (used for property clauses that are recorded findings).
+func ensuresGoal(c bool) {
+	if !c {
+		panic("verif: ensures violated")
+	}
+}
+
+// ensuresTrusted is a postcondition that callers may assume but that is not checked on the
+// function body (used for definitional clauses; every use is listed as an assumption).
+func ensuresTrusted(c bool) {}
+
+func assert(c bool) {
+	if !c {
+		panic("verif: assert violated")
+	}
+}
+
+func assume(c bool) {}
+
+func imp(a, b bool) bool { return !a || b }
+
+func iff(a, b bool) bool { return a == b }
+
+func old[T any](x T) T { return x }
+
+func forall(lo, hi int, f func(i int) bool) bool {
+	for i := lo; i < hi; i++ {
+		if !f(i) {
+			return false
+		}
+	}
+	return true
+}
+
+func exists(lo, hi int, f func(i int) bool) bool {
+	for i := lo; i < hi; i++ {
+		if f(i) {
+			return true
+		}
+	}
+	return false
+}
+
+// forallIn / existsIn quantify over the elements s[lo:hi] (k is the index, e the element).
+func forallIn[T any](s []T, lo, hi int, f func(k int, e T) bool) bool {
+	for k := lo; k < hi; k++ {
+		if !f(k, s[k]) {
+			return false
+		}
+	}
+	return true
+}
+
+// forallStr is forallIn over the bytes of a string.
+func forallStr(s string, lo, hi int, f func(k int, e byte) bool) bool {
+	for k := lo; k < hi; k++ {
+		if !f(k, s[k]) {
+			return false
+		}
+	}
+	return true
+}
+
+func existsIn[T any](s []T, lo, hi int, f func(k int, e T) bool) bool {
+	for k := lo; k < hi; k++ {
+		if f(k, s[k]) {
+			return true
+		}
+	}
+	return false
+}
+
+// Frame clauses: what a function may write in memory that existed before the call.
+func modifiesTail(s any)  {} // the spare capacity s[len(s):cap(s)]
+func modifiesElems(s any) {} // the elements s[0:len(s)]
+func modifiesPtr(p any)   {} // the cell *p
+func modifiesMap(m any)   {} // the entries of map m
+func modifiesAll()        {} // anything
+
+func allocated(p any) bool         { return true } // p designates an object that exists in the current state
+func sameOrDisjoint(a, b any) bool { return true } // a and b are the same object or do not overlap
+func freshSlice(s any) bool        { return true } // s's backing array was allocated by this call
+func sameBase(a, b any) bool       { return true } // a and b share a backing array
+func sameArray(a, b any) bool      { return true } // a is b extended in place: same backing window (base, offset, capacity)
+
+// suffixOf: a is a suffix of b (same backing array, same end).
+func suffixOf(a, b any) bool { return true }
+
+// offsetIn: index of sub's first element within whole (they share a backing array).
+func offsetIn(sub, whole any) int {
+	// executable reading (used when a clause is replayed on the real code): distance between the
+	// first elements, in elements
+	vs, vw := reflect.ValueOf(sub), reflect.ValueOf(whole)
+	if vs.Kind() != reflect.Slice || vw.Kind() != reflect.Slice {
+		return 0
+	}
+	if vs.Cap() == 0 {
+		// Go does not advance the pointer of a zero-capacity result; not observable at run time
+		panic("spec: offsetIn of a zero-capacity slice is not observable")
+	}
+	sz := vs.Type().Elem().Size()
+	if sz == 0 {
+		return 0
+	}
+	return int((vs.Pointer() - vw.Pointer()) / sz)
+}
+
+// viewOf: b's content is exactly s[p:p+len(b)] (b comes from converting s and re-slicing).
+func viewOf(b []byte, s string, p int) bool {
+	return p >= 0 && p+len(b) <= len(s) && string(b) == s[p:p+len(b)]
+}
+
+// disjointFromTail: the elements of v do not overlap the spare capacity b[len(b):cap(b)].
+func disjointFromTail(v, b any) bool { return true }
+
+// localBool: the value of a boolean local of the function under contract at the point the clause
+// is evaluated (interpreted by the verifier only).
+func localBool(name string) bool { return true }
+
+// arg: in a `//@ callsite f: e` assertion, the i-th argument of the call to f.
+func arg[T any](i int) T { var z T; return z }
+
+// recv: in a `//@ callsite x.M: e` assertion, the receiver value of the method call.
+func recv[T any]() T { var z T; return z }
+
+// identical: a and b are the same value (for strings, a sufficient condition for a == b that
+// keeps uninterpreted spec functions congruent).
+func identical(a, b any) bool { return reflect.DeepEqual(a, b) }
+
+// unchangedElems: the elements of s hold the values they held on entry.
+func unchangedElems(s any) bool { return true }
+
+func bytesEq[A, B ~[]byte | ~string](a A, b B) bool { return string(a) == string(b) }
+
+// loopIndex names the hidden index of the innermost enclosing range loop in loop invariants.
+var loopIndex int
+
+var _ = []any{requires, ensures, ensuresGoal, ensuresTrusted, assert, assume, imp, iff, forall, exists, modifiesTail, modifiesElems, modifiesPtr, modifiesMap, modifiesAll, freshSlice, sameBase, sameArray, disjointFromTail, suffixOf, viewOf, offsetIn, loopIndex}
